@@ -45,7 +45,16 @@ HEADER = """From FrameModel Require Import Num.QcTac Geometry.Rect Cases.Cmp All
 Open Scope Qc_scope."""
 
 ASSUMPTIONS = [
-    "the YAML text layer (ruamel) is exercised on every case but not modelled: models produce / consume document trees",
+    "the YAML text layer (ruamel) is exercised on every case but not modelled: models produce / consume document trees; "
+    "in the entry-form theorems it is a Section variable with the contract load (dump t) = t and 'the written text shows "
+    "': ' and line breaks as text_of t says' (block style) - the second part is compared with the real text on every "
+    "document; where only that layout differs the run prints a note, not a violation (the layout is not part of the property)",
+    "entry forms: the route read_yaml took is read off the outcome (a file name can only be accepted by opening the file; a "
+    "text taken for a file name gives an OSError; a stream that fails unread was refused) and off builtins.open; file names "
+    "are plain paths without ': ' and line breaks; the tree form is the tree ruamel loads from the text",
+    "documents are compared by what they say: modules, nets, rectangles, cells and the ratios of a cell in order; the "
+    "attributes of a module, the areas per region and the top-level keys in any order; die regions per class (blockages, "
+    "specialised) in order",
     "inputs are dyadic (k/8 below 2^10) so that binary64 is exact; quotients (centroids, incremental centres, w*alpha, "
     "pin +- 1e-3) are compared within a few roundings; the int/float form of a written number is not compared",
     "the ground regions of a die are derived data (never written): the reloaded die must cover the same ground area; "
@@ -1963,7 +1972,7 @@ def run(ctx, out, replay=None):
     cases += fr.load_corpus("C19")
     cases += netgen_cases(quick, rng)
     budget = {"die": 90, "alloc": 60, "named": 30, "floorset": 70, "allocnet": 40, "solnet": 90, "legal": 70} if quick else \
-             {"die": 900, "alloc": 500, "named": 200, "floorset": 800, "allocnet": 400, "solnet": 1200, "legal": 900}
+             {"die": 600, "alloc": 350, "named": 200, "floorset": 500, "allocnet": 300, "solnet": 800, "legal": 600}
     gens = {"die": gen_die, "alloc": gen_alloc_case, "named": gen_named, "floorset": gen_floorset,
             "solnet": gen_solnet, "allocnet": gen_allocnet, "legal": gen_legal}
     for p, k in budget.items():
